@@ -334,19 +334,31 @@ func c19Run(env *Env) *Result {
 		e1 := hist.Event{K: "e", C: 0, Op: c19OpName(pr.matrix, pr.ri, 0, pr.op1)}
 		e2 := hist.Event{K: "e", C: 1, Op: c19OpName(pr.matrix, pr.ri, 1, pr.op2)}
 		for _, order := range []string{"01", "10"} {
-			for _, audience := range []string{"two", "two+snapshot-fed-third"} {
+			for _, audience := range []string{"two", "two+snapshot-fed-third", "two+third-fed-by-snapshot-between"} {
 				sc := &hist.Scenario{Name: fmt.Sprintf("c19/%s/%s/%s,%s/%s/%s", pr.matrix, pr.rangeDesc, pr.op1, pr.op2, order, audience),
 					N: 2, Init: []string{"c19.init." + pr.matrix}, Cfg: hist.Config{Threshold: hist.Big, Interval: hist.Big}}
 				h := []hist.Event{e1, e2}
-				if order == "01" {
-					h = append(h, hist.Event{K: "s", C: 0}, hist.Event{K: "s", C: 1})
-				} else {
-					h = append(h, hist.Event{K: "s", C: 1}, hist.Event{K: "s", C: 0})
+				first, second := 0, 1
+				if order == "10" {
+					first, second = 1, 0
 				}
-				if audience != "two" {
+				switch audience {
+				case "two":
+					h = append(h, hist.Event{K: "s", C: first}, hist.Event{K: "s", C: second})
+				case "two+snapshot-fed-third":
 					sc.Late = 1
 					sc.Cfg = hist.Config{Threshold: 1, Interval: 1}
-					h = append(h, hist.Event{K: "at", C: 2})
+					h = append(h, hist.Event{K: "s", C: first}, hist.Event{K: "s", C: second}, hist.Event{K: "at", C: 2})
+				default:
+					// the third client gets a snapshot that holds only the first edit and
+					// then the concurrent second edit as a change: the snapshot must carry
+					// what that change needs to resolve (seeded change C02-3)
+					// (threshold 2: the attach, two or more changes behind, is answered by
+					// a snapshot, the single change afterwards is pulled as a change; with
+					// threshold 1 every pull is a snapshot)
+					sc.Late = 1
+					sc.Cfg = hist.Config{Threshold: 2, Interval: 1}
+					h = append(h, hist.Event{K: "s", C: first}, hist.Event{K: "at", C: 2}, hist.Event{K: "s", C: second})
 				}
 				env.Current(&Found{Property: "C19", Scenario: sc, Hist: h})
 				viol := c19Eval(sc, h, res)
@@ -408,7 +420,7 @@ func init() {
 		ID:    "C19",
 		Level: "exploration",
 		Rule: "the five upstream tree-concurrency matrices re-encoded as data (edit-edit 9 ranges x 10 x 10, split-split 5 x 8 x 8, split-edit 9 x 2 x 8, style-style 4 x 6 x 6, edit-style 7 x 6 x 2 = 1592 pairs) " +
-			"x both sync orders x {two clients; plus a third passive client fed by snapshot (threshold 1)}; complete enumeration (quick == thorough); " +
+			"x both sync orders x {two clients; plus a third passive client fed by snapshot (threshold 1) after both edits; plus a third client fed by a snapshot that holds only the first edit and then the concurrent second edit as a change}; complete enumeration (quick == thorough); " +
 			"oracle: no error/panic, replicas byte-identical after the quiescent closure and equal to the server rebuild, Root()==Marshal() after every event; " +
 			"each execution applies two concurrent edits (all non-trivial, distinct by construction)",
 		Assume:      []string{"memdb backend"},
